@@ -804,6 +804,10 @@ func head(t *Term) string {
 
 // Printer emits SMT-LIB with named shared sub-terms.
 type Printer struct {
+	canon  map[string]string // definition text -> name (structural sharing)
+	NegOf  map[string]string // name of (not X) -> name of X
+	HasFP  bool
+	HasInt bool
 	names  map[*Term]string
 	vars   map[string]Sort
 	n      int
@@ -813,11 +817,15 @@ type Printer struct {
 }
 
 func NewPrinter() *Printer {
-	return &Printer{names: map[*Term]string{}, vars: map[string]Sort{}, Out: &strings.Builder{}, prefix: "t"}
+	return &Printer{names: map[*Term]string{}, vars: map[string]Sort{}, Out: &strings.Builder{}, prefix: "t",
+		canon: map[string]string{}, NegOf: map[string]string{}}
 }
 
 func (p *Printer) Reset() {
 	p.names = map[*Term]string{}
+	p.canon = map[string]string{}
+	p.NegOf = map[string]string{}
+	p.HasFP, p.HasInt = false, false
 	p.vars = map[string]Sort{}
 	p.n = 0
 	p.Vars = nil
@@ -879,10 +887,36 @@ func (p *Printer) Ref(t *Term) string {
 			sb.WriteString(p.Ref(a))
 		}
 		sb.WriteString(")")
+		def := sb.String()
+		if n, ok := p.canon[def]; ok {
+			p.names[cur] = n
+			continue
+		}
 		p.n++
 		name := fmt.Sprintf("%s%d", p.prefix, p.n)
-		fmt.Fprintf(p.Out, "(define-fun %s () %s %s)\n", name, cur.Sort, sb.String())
+		fmt.Fprintf(p.Out, "(define-fun %s () %s %s)\n", name, cur.Sort, def)
 		p.names[cur] = name
+		p.canon[def] = name
+		if cur.Op == OpNot {
+			p.NegOf[name] = p.names[cur.Args[0]]
+			if cur.Args[0].Op == OpVar {
+				p.NegOf[name] = quoteName(cur.Args[0].Name)
+			}
+		}
+		switch cur.Sort.K {
+		case SFP:
+			p.HasFP = true
+		case SInt:
+			p.HasInt = true
+		}
+		for _, a := range cur.Args {
+			switch a.Sort.K {
+			case SFP:
+				p.HasFP = true
+			case SInt:
+				p.HasInt = true
+			}
+		}
 	}
 	return p.names[t]
 }
